@@ -230,6 +230,11 @@ func (c *DefaultCrawler) Run(ctx context.Context, startingPeers []*peer.AddrInfo
 		}
 		peerAddrs.addPeerAddrsNoLock(ai.ID, extendAddrs)
 
+		if _, ok := peersSeen[ai.ID]; ok {
+			// The same peer listed twice: keep the extra addresses, but
+			// dial (and report) it only once.
+			continue
+		}
 		toDial = append(toDial, ai)
 		peersSeen[ai.ID] = struct{}{}
 	}
